@@ -3,6 +3,7 @@
 package probe
 
 import (
+	"github.com/nspcc-dev/neo-go/pkg/interop/native/management"
 	"github.com/nspcc-dev/neo-go/pkg/interop/runtime"
 	"github.com/nspcc-dev/neo-go/pkg/interop/storage"
 )
@@ -43,4 +44,9 @@ func SetReject(on bool) {
 // Calls returns the number of accepted callbacks.
 func Calls() int {
 	return storage.Get(storage.GetReadOnlyContext(), "calls").(int)
+}
+
+// Destroy removes the probe from the chain: a subscriber that can no longer be called.
+func Destroy() {
+	management.Destroy()
 }
